@@ -153,6 +153,8 @@ class Hist:
         op = {"op": "new", "cls": cls, "dst": h, "keys": keys, "key_dtype": dt, "mod": mod}
         if rng.random() < 0.2:
             op["keys_as_list"] = True          # Python-list keys + key_dtype= keyword
+        if mod is not None and rng.random() < 0.25:
+            op["mod_np"] = True                # the modulus as a numpy integer
         if cls == "HashSet":
             vkind = "int"
             model = {k: 0 for k in keys}
@@ -180,6 +182,9 @@ class Hist:
                 else:
                     vkind = rng.choice(["int", "int", "uint", "float", "bool"])
                     op["values"] = ["arr", rng.choice(VDT[vkind]), vkind_values(rng, vkind, len(keys))]
+                    if rng.random() < 0.2 and vkind in ("int", "float"):
+                        op["values"][1] = "int64" if vkind == "int" else "float64"
+                        op["values_as_list"] = True        # a plain Python list of values
             v = op["values"]
             model = {k: (v[1] if v[0] == "scalar" else v[2][j]) for j, k in enumerate(keys)}
         prev = [x for x in self.info if self.info[x].get("arr_inputs") and self.info[x]["family"] == x]
@@ -369,8 +374,9 @@ class Hist:
             return
         if k == "get":
             op = {"op": "get", "h": h, "key": rng.choice(list(self.m[h]))}
-            if rng.random() < 0.25:
-                op["np_key"] = self.info[h]["dt"]
+            if rng.random() < 0.3:
+                fits = [d for d in KEY_DTYPES if int(np.iinfo(d).min) <= op["key"] <= int(np.iinfo(d).max)]
+                op["np_key"] = rng.choice(fits) if rng.random() < 0.5 else self.info[h]["dt"]
             self.ops.append(op)
         elif k == "getv":
             keys = self.some_keys(h, faults)
@@ -383,8 +389,10 @@ class Hist:
             if cls == "HashSet":
                 return
             self.ops.append({"op": "set", "h": h, "key": rng.choice(list(self.m[h])), "value": self.value_for(h)})
-            if rng.random() < 0.25:
-                self.ops[-1]["np_key"] = self.info[h]["dt"]
+            if rng.random() < 0.3:
+                kk = self.ops[-1]["key"]
+                fits = [d for d in KEY_DTYPES if int(np.iinfo(d).min) <= kk <= int(np.iinfo(d).max)]
+                self.ops[-1]["np_key"] = rng.choice(fits) if rng.random() < 0.5 else self.info[h]["dt"]
             self.m[h][self.ops[-1]["key"]] = self.ops[-1]["value"][1]
             self.info[h]["scalar_state"] = False
         elif k == "setv":
